@@ -64,6 +64,20 @@ Definition spec_normalised_okb (dim : Z) (ys : list tensor) (X : nat) (tol : Q)
                     (nth i degenerate false || qclose tol (pop_var false (pooled dim ys i)) 1))
           (seq 0 X).
 
+(* the documented formula y[..., i, ...] = (x[..., i, ...] - mean[i]) / max(std[i], eps),
+   judged position by position on an output *)
+Definition spec_norm_formula_okb (x : tensor) (dim : Z) (mean std : list Q) (eps tol : Q)
+  (y : tensor) : bool :=
+  match norm_dim (length (shape x)) dim with
+  | None => false
+  | Some d =>
+      list_nat_eqb (shape y) (shape x) &&
+      (length (data y) =? prodn (shape y))%nat &&
+      forallb (fun idx => let i := nth d idx 0%nat in
+                          qclose tol (get y idx) ((get x idx - nth i mean 0) / qmax (nth i std 0) eps))
+              (indices (shape x))
+  end.
+
 (* ---------------------------------------------------------------------------------- *)
 (* deltas: the recursive regression formula applied to the input extended by the        *)
 (* chosen edge padding, laid out along the requested dimension                          *)
